@@ -476,6 +476,8 @@ H("conn_unauthentic_packet_inert_native", ["C04", "C03"], "replay-only", "connec
   [("first", "u8")], 4, [], ["Connection::handle_event", "Connection::decrypt_packet", "packet_crypto::decrypt_packet_body"], "native replay body of E2 query e2_decrypt_packet_body_authentic_first")
 H("conn_second_reason_native", ["C08"], "replay-only", "connection::second_reason_native",
   [("x", "u8")], 4, [], ["Connection::handle_event", "Connection::handle_packet", "Connection::poll"], "native replay body of E2 slice query e2_handle_packet_error_block_slice; demonstration for finding 21")
+H("conn_lost_probe_other_space_native", ["C12", "C13"], "replay-only", "connection::lost_probe_other_space_native",
+  [("x", "u8")], 4, [], ["Connection::detect_lost_packets", "MtuDiscovery::poll_transmit"], "native replay body for the probe clause of e2_detect_lost_iteration_slice; demonstration for finding 23")
 H("conn_path_response_native", ["C15", "C07"], "replay-only", "connection::path_response_native",
   [("mode", "u8")], 4, [], ["Connection::handle_event", "Connection::process_payload"], "native replay body of E2 slice query e2_path_response_slice")
 H("conn_detect_lost_native", ["C12"], "replay-only", "connection::detect_lost_native",
